@@ -395,6 +395,7 @@ func TestVerif_C09_pool(t *testing.T) {
 		"op sequences of 8..70 composite pool operations (getConn halves newWant/queueForIdleConn/queueForDial, dial success/failure through the real dialConnFor goroutine parked in a dial hook, getConn receive, wantConn.cancel, readLoop-at-EOF tryPutIdleConn, connection death, peer closing an idle connection with lazy removal, removeIdleConn, closeConnIfStillIdle, CloseIdleConnections) on 1..3 keys with MaxIdleConns 0..3, MaxIdleConnsPerHost -1..3, MaxConnsPerHost 0..3, DisableKeepAlives; mostly protocol-shaped flows plus out-of-protocol calls (queueForDial on a delivered want, double queueForIdleConn, cancel in every state); after EVERY op the real pool state (idleConn, idleConnWait, connsPerHost, connsPerHostWait, idleLRU order, closeIdle, dialsInProgress, closed connections, done wants) is compared with the Lean model; non-trivial = sequence that reused an idle connection or handed one to a waiter")
 	r := s.Rand()
 	n := verifh.N(4000, 60000)
+	nFail := 0
 	for cs := 0; cs < n; cs++ {
 		maxIdle := verifh.Pick(r, []int{0, 0, 1, 2, 3})
 		maxIdleHost := verifh.Pick(r, []int{0, 0, 1, 2, 3, -1})
@@ -543,6 +544,10 @@ func TestVerif_C09_pool(t *testing.T) {
 		if fail != nil {
 			if fail.Error() != "panic" {
 				s.Crash(strings.Join(ops, ","), "pool op sequence wedged", fail.Error(), "")
+			}
+			nFail++
+			if nFail >= 3 { // every wedge costs a 10 s wait: three are evidence enough
+				break
 			}
 			continue
 		}
